@@ -68,13 +68,30 @@ func C19() int {
 		}
 		files = append(files, buf.Bytes())
 	}
+	// redaction can make a line LONGER (a one-character literal becomes the 8-character placeholder):
+	// a legal input line below the reader's limit whose redacted form lies beyond it
+	growth := len(files)
+	{
+		var buf bytes.Buffer
+		for k := 0; k < 2; k++ {
+			arr := jt.ArrN()
+			for i := 0; i < 12000; i++ {
+				arr.Vals = append(arr.Vals, jt.StrN("a"))
+			}
+			cmd := jt.ObjN("find", jt.StrN("c"), "filter", jt.ObjN("k", jt.ObjN("$in", arr)), "$db", jt.StrN("db"))
+			cs := g.Case(gen.CaseOpts{Verb: "find", Carrier: "command", Comp: "COMMAND", DB: "db", Coll: "c", Cmd: cmd})
+			buf.Write(cs.Line.Bytes(jt.Plain))
+			buf.WriteByte('\n')
+		}
+		files = append(files, buf.Bytes())
+	}
 	c.Set("catalogue_lines", len(cat))
 	c.Set("lines_with_a_twin_differing_only_in_redacted_values_or_repeated", twinLines)
 	var jobs []job
 	for i := range files {
 		for m := 0; m < 8; m++ {
 			for ri, r := range reps {
-				if !thorough(c) && (i+m+ri)%4 != 0 {
+				if !thorough(c) && (i+m+ri)%4 != 0 && !(i == growth && m+ri == 0) {
 					continue
 				}
 				jobs = append(jobs, job{i, Flags{N: m&1 != 0, B: m&2 != 0, I: m&4 != 0, R: r}})
@@ -135,6 +152,20 @@ func C19() int {
 		}
 		c.Eval(key)
 		c.Count("output_lines_fed_back", bytes.Count(b1, []byte("\n")))
+		if r1.Exit == 0 && r2.Exit != 0 && bytes.Contains(r2.Stderr, []byte("token too long")) {
+			longest := 0
+			for _, l := range splitLines(b1) {
+				if len(l) > longest {
+					longest = len(l)
+				}
+			}
+			if longest >= 64*1024 {
+				c.Count("first_pass_output_lines_beyond_the_reader_limit", 1)
+				c.Violation("pass-failed|output-line-beyond-reader-limit", fmt.Sprintf("the first pass emitted a line of %d bytes (its input lines are all below 64 KiB); the second pass stops with exit %d: %s", longest, r2.Exit, short(bytes.TrimSpace(r2.Stderr), 200)),
+					map[string]any{"kind": "two-pass", "flags": fa, "input_bytes": len(files[jb.file]), "input_head": short(files[jb.file], 400)})
+				return
+			}
+		}
 		if r1.Exit != 0 || r2.Exit != 0 {
 			c.Violation("pass-failed|exit", fmt.Sprintf("pass exit codes %d/%d (flags %s): %s", r1.Exit, r2.Exit, jb.f, short(append(r1.Stderr, r2.Stderr...), 300)),
 				map[string]any{"kind": "two-pass", "flags": fa, "input": string(files[jb.file])})
